@@ -485,4 +485,55 @@ def Study.init (d : Dir) : Study := { dir := d, trials := [] }
 def after (crc : Nat → Nat) (s : Study) (ops : List Op) : Study :=
   ops.foldl (fun s op => (step crc s op).1) s
 
+/-! ## the glue between the objective and the pruner: `Trial.report` / `Trial.should_prune` on the trial OBJECT
+
+`optuna/trial/_trial.py`.  The object holds `_cached_frozen_trial` (here a `PTrial`) and sees `len(study.directions)`.
+`value` / `stp` are the results of `float(value)` / `int(step)` (`none` = the conversion raises); `storageOk` says whether
+`storage.set_trial_intermediate_value` accepts the write (it refuses for a finished trial).  (`Props/C16ReportGen.lean` proves
+the methods generated from the source equal to these and connects them to `step` above.) -/
+
+inductive ReportErr where
+  | notImplemented | typeError | valueError | storageError
+deriving DecidableEq, Repr, Inhabited
+
+structure TrialObj where
+  nDirs : Nat
+  cached : PTrial
+deriving DecidableEq, Repr, Inhabited
+
+structure ReportResult where
+  obj : TrialObj
+  /-- `set_trial_intermediate_value(trial_id, step, value)` calls that succeeded -/
+  writes : List (Int × XVal)
+  /-- "The reported value is ignored because this `step` is already reported." -/
+  warned : Bool
+  err : Option ReportErr
+deriving DecidableEq, Repr, Inhabited
+
+/-- `Trial.report(value, step)` -/
+def reportTrial (o : TrialObj) (value : Option XVal) (stp : Option Int) (storageOk : Bool) : ReportResult :=
+  if 1 < o.nDirs then ⟨o, [], false, some .notImplemented⟩
+  else
+    match value, stp with
+    | none, _ => ⟨o, [], false, some .typeError⟩
+    | some _, none => ⟨o, [], false, some .typeError⟩
+    | some v, some st =>
+      if st < 0 then ⟨o, [], false, some .valueError⟩
+      else if (interGet o.cached.inter st).isSome then ⟨o, [], true, none⟩
+      else if !storageOk then ⟨o, [], false, some .storageError⟩
+      else ⟨{ o with cached := { o.cached with inter := o.cached.inter ++ [(st, v)] } }, [(st, v)], false, none⟩
+
+/-- `Trial.should_prune()`: the pruner is handed a copy of the cached trial (whatever it does to the object it is handed
+does not reach the cache); `none` = `NotImplementedError` (multi-objective) -/
+def shouldPruneTrial (o : TrialObj) (prunerF : PTrial → Bool × PTrial) : TrialObj × Option Bool :=
+  if 1 < o.nDirs then (o, none) else (o, some (prunerF o.cached).1)
+
+/-- `pruners._filter_study(study, trial)`: the trials a sampler sees when it asks for the pruner's view of the study — under
+Hyperband the bracket study of the trial's bracket (`bracketIdF n` = `pruner._get_bracket_id(study, trial)`, `bracketView b` =
+`pruner._create_bracket_study(study, b).get_trials()`: `bracketId` / `bracketTrials` above once the pruner is initialised),
+the study itself otherwise -/
+def filterStudyView (isHyperband : Bool) (bracketIdF : Nat → Nat) (bracketView : Nat → List PTrial) (trials : List PTrial)
+    (n : Nat) : List PTrial :=
+  if isHyperband then bracketView (bracketIdF n) else trials
+
 end OptunaVerif.Pruners
